@@ -284,4 +284,11 @@ theorem insert_close_level (H : HashFn) (algo : Nat) : ∀ (st : List (Option No
         have := insert_close_level H algo rest root rest' r hr hc
         rw [this, join_level hj]; rfl
 
+theorem highestLevel_ge : ∀ (st : List (Option Node)) (lv : Nat), lv ≤ highestLevel st lv
+  | [], lv => Nat.le_refl _
+  | none :: rest, lv => by simpa [highestLevel] using highestLevel_ge rest lv
+  | some n :: rest, lv => by
+    simp only [highestLevel]
+    exact Nat.le_trans (by omega) (highestLevel_ge rest (max n.level lv + 1))
+
 end KsiVerif.Tree
